@@ -436,7 +436,7 @@ impl World {
             }
         } else {
             let g = self.gm(winner);
-            match guarded(|| g.apply_pending_commit()) {
+            match guarded(|| g.apply_pending_alt()) {
                 Ok(Ok(d)) => d,
                 Ok(Err(e)) => return Err(format!("apply_pending_commit: {e:?}")),
                 Err(p) => return Err(format!("PANIC in apply_pending_commit: {p}")),
